@@ -7,6 +7,7 @@ import PyImpSpec.Gen.Kernels
 import PyImpSpec.Tlm
 import PyImpSpec.Select
 import PyImpSpec.Progress
+import PyImpSpec.Ident
 
 /-! Line-protocol driver: one request per line (`<model> <op> <args…>`), one canonical reply per line.
 Run with `lake env lean --run Driver/Main.lean`.  The harness sends the same inputs to the real
@@ -199,6 +200,35 @@ def zprogReply (args : List String) : String :=
     s!"ok {o.total} {o.increments}"
   | _ => "bad-op"
 
+
+/-! ### element traversal and identifiers -/
+
+def parseTr : Nat → List String → Option (Ident.Tr × List String)
+  | 0, _ => none
+  | fuel + 1, toks =>
+    match toks with
+    | "E" :: oid :: sym :: label :: n :: rest =>
+      (parseTrs fuel n.toNat! rest).map fun r => (.elem ⟨oid.toNat!, decodeHex sym, decodeHex label⟩ r.1, r.2)
+    | "C" :: n :: rest => (parseTrs fuel n.toNat! rest).map fun r => (.conn r.1, r.2)
+    | _ => none
+where
+  parseTrs (fuel : Nat) : Nat → List String → Option (List Ident.Tr × List String)
+    | 0, toks => some ([], toks)
+    | k + 1, toks =>
+      match parseTr fuel toks with
+      | none => none
+      | some (t, rest) => (parseTrs fuel k rest).map fun r => (t :: r.1, r.2)
+
+def identReply (toks : List String) : String :=
+  match parseTr (toks.length + 1) toks with
+  | some (t, []) =>
+    let run := Ident.running t
+    let per := Ident.perType t
+    let f := fun (l : List (Ident.El × Nat)) => ",".intercalate (l.map fun p => s!"{p.1.oid}:{p.2}")
+    let names := ",".intercalate (per.map fun p => (Ident.name p.1 p.2))
+    s!"ok {f run} {f per} {names}"
+  | _ => "bad-op"
+
 def dsStep (st : DState) (args : List String) : DState × String :=
   match args with
   | ["reset"] => ({ st with ds := [] }, "ok")
@@ -311,6 +341,7 @@ def step (st : DState) (line : String) : DState × String :=
   | "prog" :: npct :: total :: recent :: toks => (st, progReply npct total recent toks)
   | "zprog" :: args => (st, zprogReply args)
   | ["fprog", m, w] => (st, s!"ok {Prog.fitTotal m.toNat! w.toNat!} {Prog.fitIncrements m.toNat! w.toNat!}")
+  | "ident" :: toks => (st, identReply toks)
   | ["sel", keys] => (st, selReply keys)
   | "tlm" :: which :: a :: b :: c :: d :: e :: binds => (st, tlmReply which [a, b, c, d, e] binds)
   | "ker" :: which :: sym :: binds => (st, kerReply which sym binds)
